@@ -383,6 +383,24 @@ class LocationDB(object):
         # A simple merge is not doable here, because LocKey will certainly
         # collides
 
+        backup = (
+            set(self._loc_keys), dict(self._loc_key_to_offset),
+            dict((loc_key, set(names))
+                 for loc_key, names in viewitems(self._loc_key_to_names)),
+            dict(self._name_to_loc_key), dict(self._offset_to_loc_key),
+            self._loc_key_num
+        )
+        try:
+            self._merge(location_db)
+        except Exception:
+            # A rejected merge leaves the database unchanged
+            (self._loc_keys, self._loc_key_to_offset, self._loc_key_to_names,
+             self._name_to_loc_key, self._offset_to_loc_key,
+             self._loc_key_num) = backup
+            raise
+
+    def _merge(self, location_db):
+        """Import @location_db, location by location"""
         for foreign_loc_key in location_db.loc_keys:
             foreign_names = location_db.get_location_names(foreign_loc_key)
             foreign_offset = location_db.get_location_offset(foreign_loc_key)
